@@ -151,9 +151,15 @@ def signature(project, config):
             if r['has' + f.capitalize()]:
                 cfg.append(f'routine[{rk}].{f}:' + ('+'.join(sorted({key_class(P, k) for k in r[f]})) or 'empty'))
     selfrec = int(any(p['name'] in p['calls'] for p in P['procs']))
+    # the same local procedure name in two scopes: none | scope (different files) | file (two modules of one file)
+    dup = 'none'
+    for i, p in enumerate(P['procs']):
+        for q in P['procs'][i + 1:]:
+            if p['name'] == q['name']:
+                dup = 'file' if p['file'] == q['file'] else (dup if dup == 'file' else 'scope')
     seeds = ''.join('q' if s['q'] else 'p' for s in C['seeds'])
     return (f"np={len(P['procs'])}:nm={len(P['mods'])}:free={sum(1 for p in P['procs'] if not p['mod'])}:"
-            f"imp={'+'.join(sorted(styles)) or 'none'}:self={selfrec}:seeds={seeds}:cfg={','.join(sorted(cfg)) or 'none'}")
+            f"imp={'+'.join(sorted(styles)) or 'none'}:self={selfrec}:dup={dup}:seeds={seeds}:cfg={','.join(sorted(cfg)) or 'none'}")
 
 
 def reductions(project, config):
